@@ -320,6 +320,109 @@ mut("c03-silent-sibling-local-rename", "C03", "location.go",
     "\tlo, hi := ambiguous.Start, ambiguous.End\n\tif (0 <= n && i <= lo) || (n < 0 && i < lo) {\n\t\tlo = Max(i, lo+n)\n\t}\n\tif (0 <= n && i < hi) || (n < 0 && i <= hi) {\n\t\thi = Max(i, hi+n)\n\t}\n\tif lo == hi {\n\t\treturn Between(lo)\n\t}\n\treturn Ambiguous{lo, hi}",
     silent=True, note="renaming locals in one sibling only is not a difference")
 
+
+# ---------------------------------------------------------------- round-2 rules
+# C06 Push / print-parse
+mut("c06-merge-start-from-u", "C06", "location.go", "ll.Data = Ranged{v.Start, u.End, partial}", "ll.Data = Ranged{u.Start, u.End, partial}", ["MERGE-RANGED|gts.(*LocationList).Push|Ranged+Ranged"])
+mut("c06-merge-nonabutting", "C06", "location.go", "|| force) && v.End == u.Start {", "|| force) && v.End <= u.Start {", ["MERGE-RANGED|gts.(*LocationList).Push|Ranged+Ranged"])
+mut("c06-merge-force-ignored", "C06", "location.go", "if ((v.Partial.Partial3 && u.Partial.Partial5) || force) && v.End == u.Start {", "if (v.Partial.Partial3 && u.Partial.Partial5) && v.End == u.Start {\n\t\t\t\t_ = force", ["MERGE-RANGED|gts.(*LocationList).Push|Ranged+Ranged"])
+mut("c06-merge-silent-keyed", "C06", "location.go", "ll.Data = Ranged{v.Start, u.End, partial}", "ll.Data = Ranged{Start: v.Start, End: u.End, Partial: partial}", silent=True)
+mut("c06-merge-silent-ctor", "C06", "location.go", "ll.Data = Ranged{v.Start, u.End, partial}", "ll.Data = PartialRange(v.Start, u.End, partial)", silent=True, note="the constructor is resolved through its body")
+mut("c06-absorb-adjacent-point", "C06", "location.go", "\t\tcase Point:\n\t\t\tif v == u {\n\t\t\t\treturn\n\t\t\t}\n\t\tcase Ranged:\n\t\t\tif int(v) == u.Start {", "\t\tcase Point:\n\t\t\tif v+1 == u {\n\t\t\t\treturn\n\t\t\t}\n\t\tcase Ranged:\n\t\t\tif int(v) == u.Start {", ["PUSH-ABSORB|gts.(*LocationList).Push|Point+Point"])
+mut("c06-absorb-point-before-range", "C06", "location.go", "\t\tcase Ranged:\n\t\t\tif int(v) == u.Start {\n\t\t\t\tll.Data = u\n\t\t\t\treturn\n\t\t\t}\n\t\t}\n\n\tcase Ranged:", "\t\tcase Ranged:\n\t\t\tif int(v)+1 == u.Start {\n\t\t\t\tll.Data = u\n\t\t\t\treturn\n\t\t\t}\n\t\t}\n\n\tcase Ranged:", ["PUSH-ABSORB|gts.(*LocationList).Push|Point+Ranged"])
+mut("c06-absorb-silent-flip", "C06", "location.go", "\t\tcase Between:\n\t\t\tif v.End == int(u) {", "\t\tcase Between:\n\t\t\tif int(u) == v.End {", silent=True)
+mut("c06-offset-point-printer", "C06", "location.go", "return strconv.Itoa(int(point + 1))", "return strconv.Itoa(int(point))", ["OFFSET-AGREE|gts.Point"])
+mut("c06-offset-ambiguous-parser", "C06", "location.go", "\tstart := result.Value.(int) - 1\n\tc, err := pars.Next(state)", "\tstart := result.Value.(int)\n\tc, err := pars.Next(state)", ["OFFSET-AGREE|gts.Ambiguous.Start"])
+mut("c06-offset-silent-point", "C06", "location.go", "return strconv.Itoa(int(point + 1))", "return strconv.Itoa(int(point) + 1)", silent=True)
+mut("c06-between-no-adjacency", "C06", "location.go", "\tif start+1 != end {\n\t\treturn fmt.Errorf(\"%d^%d is not a valid location: coordinates should be adjacent\", start, end)\n\t}\n", "\t_ = end\n", ["OFFSET-AGREE|gts.Between"])
+mut("c06-wrap-request-short", "C06", "location.go", "state.Request(6)", "state.Request(5)", ["WRAP-TOKENS|gts.Ordered"])
+mut("c06-wrap-ctor", "C06", "location.go", "result.SetValue(Order(result.Value.([]Location)...))", "result.SetValue(Join(result.Value.([]Location)...))", ["WRAP-TOKENS|gts.Ordered"])
+mut("c06-marker-printer-flag", "C06", "location.go", "\tif ranged.Partial.Partial3 {\n\t\tb.WriteByte('>')", "\tif ranged.Partial.Partial5 {\n\t\tb.WriteByte('>')", ["MARKER-AGREE|gts.Ranged|>|printer"])
+mut("c06-marker-legacy-unguarded", "C06", "location.go", "if err == nil && c == '>' {", "if err == nil {", ["MARKER-AGREE|gts.Ranged|>|parser"])
+
+# C08
+mut("c08-walk-original", "C08", "region.go",
+    "\tfor left+1 < len(rr) && rr[left].Len() < lower {\n\t\tlower -= rr[left].Len()\n\t\tleft++\n\t}\n\tfor right+1 < len(rr) && rr[right].Len() < upper {\n\t\tupper -= rr[right].Len()\n\t\tright++\n\t}\n",
+    "\tfor k := 0; k+1 < len(rr); k++ {\n\t\tn := rr[k].Len()\n\t\tif n < lower {\n\t\t\tleft = k + 1\n\t\t\tlower -= n\n\t\t}\n\t\tif n < upper {\n\t\t\tright = k + 1\n\t\t\tupper -= n\n\t\t}\n\t}\n",
+    ["WALK-PREFIX|gts.Regions.Resize|consume#1", "WALK-PREFIX|gts.Regions.Resize|consume#2"], note="the repaired defect, reintroduced")
+mut("c08-walk-silent-index-guard", "C08", "region.go",
+    "\tfor left+1 < len(rr) && rr[left].Len() < lower {\n\t\tlower -= rr[left].Len()\n\t\tleft++\n\t}\n\tfor right+1 < len(rr) && rr[right].Len() < upper {\n\t\tupper -= rr[right].Len()\n\t\tright++\n\t}\n",
+    "\tfor k := 0; k+1 < len(rr); k++ {\n\t\tn := rr[k].Len()\n\t\tif left == k && n < lower {\n\t\t\tleft = k + 1\n\t\t\tlower -= n\n\t\t}\n\t\tif right == k && n < upper {\n\t\t\tright = k + 1\n\t\t\tupper -= n\n\t\t}\n\t}\n",
+    silent=True, note="a correct single-loop walk (index == position guard)")
+mut("c08-mirror-missing", "C08", "modifier.go", "\tp, q := Unpack(mod)\n\n\tif tail < head {\n\t\thead, tail = mod.Apply(-head, -tail)\n\t\treturn -head, -tail\n\t}\n\n\ttail = head + q", "\tp, q := Unpack(mod)\n\n\ttail = head + q", ["MIRROR-APPLY|gts.HeadHead.Apply"])
+mut("c08-mirror-unnegated-return", "C08", "modifier.go", "\tq := int(mod)\n\tif tail < head {\n\t\thead, tail = mod.Apply(-head, -tail)\n\t\treturn -head, -tail\n\t}", "\tq := int(mod)\n\tif tail < head {\n\t\thead, tail = mod.Apply(-head, -tail)\n\t\treturn -tail, -head\n\t}", ["MIRROR-APPLY|gts.Tail.Apply"])
+mut("c08-modpair-printer", "C08", "modifier.go", "return fmt.Sprintf(\"%s..%s\", Head(p), Head(q))", "return fmt.Sprintf(\"%s..%s\", Head(p), Tail(q))", ["MOD-PAIR|gts.HeadHead"])
+mut("c08-modpair-order", "C08", "modifier.go", "result.SetValue(TailTail{p, q})", "result.SetValue(TailTail{q, p})", ["MOD-PAIR|gts.TailTail"])
+mut("c08-modpair-sigil", "C08", "modifier.go", "\tif mod == 0 {\n\t\treturn \"$\"\n\t}\n\treturn fmt.Sprintf(\"$%+d\", mod)", "\tif mod == 0 {\n\t\treturn \"$\"\n\t}\n\treturn fmt.Sprintf(\"^%+d\", mod)", ["MOD-PAIR|gts.Tail"])
+mut("c08-locator-silent-local", "C08", "locator.go", "\t\treturn Regions{loc.Region()}\n", "\t\trr := Regions{loc.Region()}\n\t\treturn rr\n", silent=True)
+mut("c08-precedence-swapped", "C08", "locator.go",
+    "\t\tmod, err := AsModifier(s)\n\t\tif err == nil {\n\t\t\treturn relativeLocator(mod), nil\n\t\t}\n\n\t\tloc, ok := tryLocation(s)\n\t\tif ok {\n\t\t\treturn locationLocator(loc), nil\n\t\t}\n",
+    "\t\tloc, ok := tryLocation(s)\n\t\tif ok {\n\t\t\treturn locationLocator(loc), nil\n\t\t}\n\n\t\tmod, err := AsModifier(s)\n\t\tif err == nil {\n\t\t\treturn relativeLocator(mod), nil\n\t\t}\n",
+    ["LOC-PRECEDENCE|gts.AsLocator|case=-1"])
+mut("c08-split-keeps-at", "C08", "locator.go", "mod, err := AsModifier(s[i+1:])", "mod, err := AsModifier(s[i:])", ["LOC-PRECEDENCE|gts.AsLocator|case=default"])
+
+# C10
+mut("c10-concat-append-first", "C10", "sequence.go",
+    "\t\t\tfor _, f := range seq.Features() {\n\t\t\t\tf.Loc = f.Loc.Expand(0, len(p))\n\t\t\t\tff = ff.Insert(f)\n\t\t\t}\n\t\t\tp = append(p, seq.Bytes()...)\n",
+    "\t\t\tp = append(p, seq.Bytes()...)\n\t\t\tfor _, f := range seq.Features() {\n\t\t\t\tf.Loc = f.Loc.Expand(0, len(p))\n\t\t\t\tff = ff.Insert(f)\n\t\t\t}\n", ["CONCAT-OFFSET|gts.Concat"])
+mut("c10-concat-offset-own-length", "C10", "sequence.go", "f.Loc = f.Loc.Expand(0, len(p))", "f.Loc = f.Loc.Expand(0, Len(seq))", ["CONCAT-OFFSET|gts.Concat"])
+mut("c10-concat-silent-local-offset", "C10", "sequence.go",
+    "\t\t\tfor _, f := range seq.Features() {\n\t\t\t\tf.Loc = f.Loc.Expand(0, len(p))",
+    "\t\t\toffset := len(p)\n\t\t\tfor _, f := range seq.Features() {\n\t\t\t\tf.Loc = f.Loc.Expand(0, offset)", silent=True)
+mut("c10-neg-start-le", "C10", "sequence.go", "\tif start < 0 {\n\t\tstart += seqlen", "\tif start <= 0 {\n\t\tstart += seqlen", ["NEG-INDEX|gts.Slice|start"])
+
+# C17
+mut("c17-format-no-final-newline", "C17", "seqio/fasta.go", 's := fmt.Sprintf(">%s\\n%s\\n", desc, data)', 's := fmt.Sprintf(">%s\\n%s", desc, data)', ["FASTA-WRITE|seqio.Fasta.WriteTo|format"])
+mut("c17-read-join-sep", "C17", "seqio/fasta.go", "data := bytes.Join(lines, nil)", "data := bytes.Join(lines, []byte{' '})", ["FASTA-READ|seqio.FastaParser|residues"])
+mut("c17-read-crlf-reverted", "C17", "seqio/fasta.go", "\tfor i, line := range lines {\n\t\tlines[i] = bytes.TrimSuffix(line, []byte{'\\r'})\n\t}\n", "", ["FASTA-READ|seqio.FastaParser|carriage-return"], note="the repaired defect, reintroduced")
+mut("c17-read-desc-child", "C17", "seqio/fasta.go", "desc := string(result.Children[1].Token)", "desc := string(result.Children[2].Token)", ["FASTA-READ|seqio.FastaParser|description"])
+mut("c17-desc-upper", "C17", "seqio/fasta.go", "f := Fasta{info, v.Bytes()}", "f := Fasta{info, bytes.ToUpper(v.Bytes())}", ["FASTA-DESC|seqio.FastaWriter.WriteSeq|Fasta#1"])
+mut("c17-gbf-region-zero-based", "C17", "seqio/genbank.go", 'return fmt.Sprintf("%s:%d-%d %s", gbf.Version, head+1, tail, gbf.Definition)', 'return fmt.Sprintf("%s:%d-%d %s", gbf.Version, head, tail, gbf.Definition)', ["FASTA-DESC|seqio.GenBankFields.String|return#1"])
+mut("c17-silent-replace-minus-one", "C17", "seqio/fasta.go", 'desc := strings.ReplaceAll(f.Desc, "\\n", " ")', 'desc := strings.Replace(f.Desc, "\\n", " ", -1)', silent=True)
+mut("c17-silent-trimright-cr", "C17", "seqio/fasta.go", "lines[i] = bytes.TrimSuffix(line, []byte{'\\r'})", 'lines[i] = bytes.TrimRight(line, "\\r")', silent=True)
+
+# C01
+mut("c01-pad-reader-constant", "C01", "seqio/genbank_subparsers.go", "paddingLength := 3 - len(strconv.Itoa(ref.Number))", "paddingLength := 4 - len(strconv.Itoa(ref.Number))", ["PAD-AGREE|seqio.REFERENCE"])
+mut("c01-pad-silent-le", "C01", "seqio/genbank.go", "\t\t\tif padLength < 0 {\n\t\t\t\tpadLength = 0", "\t\t\tif padLength <= -1 {\n\t\t\t\tpadLength = 0", silent=True)
+mut("c01-trim-none", "C01", "seqio/strings.go", '\ts = strings.TrimSuffix(s, ".")\n', "", ["TRIM-ONE|seqio.FlatFileSplit"])
+
+# C03
+mut("c03-neg-end-le", "C03", "sequence.go", "\tif end < 0 {\n\t\tend += seqlen", "\tif end <= 0 {\n\t\tend += seqlen", ["NEG-INDEX|gts.Slice|end"])
+mut("c03-neg-silent-flipped", "C03", "sequence.go", "\tif start < 0 {\n\t\tstart += seqlen", "\tif 0 > start {\n\t\tstart += seqlen", silent=True)
+mut("c03-erase-delete-unfiltered", "C03", "sequence.go", "\tseq = WithFeatures(seq, ff)\n\treturn Delete(seq, offset, length)\n}\n\n// Slice returns", "\t_ = ff\n\treturn Delete(seq, offset, length)\n}\n\n// Slice returns", ["ERASE-ORDER|gts.Erase"])
+mut("c03-range-elem-silent-index", "C03", "seqio/genbank.go", "\t\t\t\tfor i, loc := range olap {\n\t\t\t\t\thead, tail := loc.Start, loc.End", "\t\t\t\tfor i := range olap {\n\t\t\t\t\thead, tail := olap[i].Start, olap[i].End", silent=True)
+mut("c03-fmap-conditional-expand", "C03", "sequence.go", "\t\tf.Loc = f.Loc.Expand(offset, -length)\n\t\tff[i] = f", "\t\tif f.Key != \"source\" {\n\t\t\tf.Loc = f.Loc.Expand(offset, -length)\n\t\t}\n\t\tff[i] = f", ["FMAP|gts.Delete"])
+mut("c03-fmap-silent-invariant-cond", "C03", "sequence.go", "\t\tf.Loc = f.Loc.Expand(offset, -length)\n\t\tff[i] = f", "\t\tif length != 0 {\n\t\t\tf.Loc = f.Loc.Expand(offset, -length)\n\t\t}\n\t\tff[i] = f", silent=True, note="a loop-invariant condition applies to every feature alike")
+
+# C05
+mut("c05-locate-forward-swapped", "C05", "region.go", "\treturn Slice(seq, head, tail)\n}", "\treturn Slice(seq, tail, head)\n}", ["LOCATE-RC|gts.Segment.Locate|return#2"])
+mut("c05-locate-no-complement", "C05", "region.go", "return Reverse(Complement(Slice(seq, tail, head)))", "return Reverse(Slice(seq, tail, head))", ["LOCATE-RC|gts.Segment.Locate|return#1"])
+mut("c05-locate-silent-order", "C05", "region.go", "return Reverse(Complement(Slice(seq, tail, head)))", "return Complement(Reverse(Slice(seq, tail, head)))", silent=True)
+
+# C07
+mut("c07-panic-new-in-parser", "C07", "location.go", "\tpoint := result.Value.(int)\n\tresult.SetValue(Point(point - 1))", "\tpoint := result.Value.(int)\n\tif point == 0 {\n\t\tpanic(\"position 0\")\n\t}\n\tresult.SetValue(Point(point - 1))", ["PANIC|"])
+mut("c07-commit-fieldname", "C07", "seqio/genbank_subparsers.go", "\t\tif indentLength < 0 {\n\t\t\tstate.Clear()\n", "\t\tif indentLength < 0 {\n", ["COMMIT|seqio.genbankFieldNameParser|clear"])
+mut("c07-commit-after-body", "C07", "seqio/genbank_subparsers.go", "\t\tstate.Clear()\n\t\tif err := fieldBodyParser(state, result); err != nil {\n\t\t\treturn err\n\t\t}\n", "\t\tif err := fieldBodyParser(state, result); err != nil {\n\t\t\treturn err\n\t\t}\n\t\tstate.Clear()\n", ["COMMIT|seqio.genbankFeatureParser|table-parser#1"])
+
+# C12
+mut("c12-keep-drops-unmerged", "C12", "feature.go", "\t\t\t} else {\n\t\t\t\tkeep = append(keep, indices...)\n\t\t\t}\n", "\t\t\t}\n", ["KEEP-ALL|gts.Repair"])
+mut("c12-group-conditional", "C12", "feature.go", "\t\tindex[key] = append(index[key], i)\n", "\t\tif f.Loc != nil {\n\t\t\tindex[key] = append(index[key], i)\n\t\t}\n", ["GROUP-ALL|gts.Repair"])
+mut("c12-silent-nonempty-neq", "C12", "feature.go", "\t\tif len(indices) > 0 {\n", "\t\tif len(indices) != 0 {\n", silent=True)
+
+# C14 KEY-6
+mut("c14-key6-func-values", "C14", "cmd/gts/extract.go", '{"locators", *locstrs},', '{"locators", *locstrs},\n\t\t\t{"compiled", locators},', ["KEY-6|main.extractFunc|tuple=compiled"])
+mut("c14-key6-silent-iface-conv", "C14", "cmd/gts/extract.go", '{"invert", *invert},', '{"invert", interface{}(*invert)},', silent=True, note="an explicit conversion keeps the concrete type")
+
+# C15
+mut("c15-dedup-by-length", "C15", "cmd/gts/extract.go", "if reflect.DeepEqual(rr[i], r) {", "if rr[i].Len() == r.Len() {\n\t\t\t_ = reflect.DeepEqual", ["DEDUP-EXACT|main.containsRegion"])
+mut("c15-chain-silent-outer-var", "C15", "cmd/gts/insert.go", "\t\tfor _, guest := range guests {\n\t\t\tout := gts.Sequence(gts.Copy(host))\n", "\t\tvar out gts.Sequence\n\t\tfor _, guest := range guests {\n\t\t\tout = gts.Sequence(gts.Copy(host))\n", silent=True, note="declared outside, restarted at the top of every iteration")
+
+# C04
+mut("c04-fmap-conditional-normalize", "C04", "sequence.go", "\t\tf.Loc = f.Loc.Expand(0, n).Normalize(Len(seq))\n", "\t\tif f.Loc.Len() > 1 {\n\t\t\tf.Loc = f.Loc.Expand(0, n).Normalize(Len(seq))\n\t\t}\n", ["FMAP|gts.Rotate"])
+mut("c04-merge-swapped", "C04", "location.go", "partial := Partial{v.Partial.Partial5, u.Partial.Partial3}", "partial := Partial{v.Partial.Partial3, u.Partial.Partial5}", ["MERGE-RANGED|gts.(*LocationList).Push|Ranged+Ranged"])
+# PURE per operation
+mut("c02-pure-insert-in-place", "C02", "sequence.go", "\tr := make([]byte, 0, len(p)+len(q))\n\tr = append(r, p[:pos]...)\n", "\tr := p[:pos]\n", ["PURE|gts.insert"])
+
 if __name__ == "__main__":
     here = os.path.dirname(os.path.abspath(__file__))
     ids = [m["id"] for m in M]
